@@ -92,3 +92,43 @@ Qed.
 Print Assumptions lookup_value.
 Print Assumptions lookup_other_keys.
 Print Assumptions caches_separate.
+
+(* ---------- whole runs: the invariant holds from the constructors' state through every operation ---------- *)
+Definition ec_ok (R : nat -> nat -> nat -> str -> str) (w now : nat) (e : ecache) : Prop :=
+  cache_ok (fun t => R w 0 t) now (by_id e) /\ cache_ok (fun t => R w 1 t) now (by_name e).
+Definition state_ok (R : nat -> nat -> nat -> str -> str) (s : cstate2) : Prop :=
+  ec_ok R 0 (tick s) (users s) /\ ec_ok R 1 (tick s) (groups s).
+Lemma new_ecache_ok R w now : ec_ok R w now new_ecache.
+Proof. split; (constructor; [left; reflexivity|constructor]). Qed.
+Lemma state_ok_init R : state_ok R cs0.
+Proof. split; apply new_ecache_ok. Qed.
+Lemma hardcode_ok R now k v c : cache_ok R now c -> cache_ok R now (hardcode k v now c).
+Proof.
+  intros H. unfold cache_ok in *. unfold hardcode, store. constructor; [left; reflexivity|].
+  apply Forall_forall. intros e He. apply filter_In in He. rewrite Forall_forall in H. apply H. tauto.
+Qed.
+Lemma get_set_ok R s w e : state_ok R s -> ec_ok R w (tick s) e -> (w = 0 \/ w = 1) -> state_ok R (set_ec s w e).
+Proof. intros [Hu Hg] He [-> | ->]; split; cbn; auto. Qed.
+Lemma get_ec_ok R s w : state_ok R s -> (w = 0 \/ w = 1) -> ec_ok R w (tick s) (get_ec s w).
+Proof. intros [Hu Hg] [-> | ->]; cbn; auto. Qed.
+Definition op_wf (o : cop) : Prop := match o with CLookup w _ _ | CHard w _ _ => w = 0 \/ w = 1 | CPause => True end.
+
+Theorem step_keeps_invariant cl R s o : op_wf o -> state_ok R s -> state_ok R (fst (cstep2 cl R s o)).
+Proof.
+  intros Hw H. destruct o as [w kind k|w id name|]; cbn [cstep2 op_wf] in *.
+  - pose proof (get_ec_ok R s w H Hw) as [Hi Hn]. destruct kind.
+    + pose proof (lookup_value cl (fun t => R w 0 t) (tick s) (by_id (get_ec s w)) k Hi) as L.
+      destruct (lookup cl (fun t => R w 0 t) (tick s) (by_id (get_ec s w)) k) as [[c' v] a]. destruct L as [L _]. cbn [fst].
+      apply get_set_ok; auto. split; cbn; auto.
+    + pose proof (lookup_value cl (fun t => R w 1 t) (tick s) (by_name (get_ec s w)) k Hn) as L.
+      destruct (lookup cl (fun t => R w 1 t) (tick s) (by_name (get_ec s w)) k) as [[c' v] a]. destruct L as [L _]. cbn [fst].
+      apply get_set_ok; auto. split; cbn; auto.
+  - pose proof (get_ec_ok R s w H Hw) as [Hi Hn]. cbn [fst]. apply get_set_ok; auto. split; cbn; apply hardcode_ok; auto.
+  - destruct H as [[H1 H2] [H3 H4]]. cbn [fst]. split; split; cbn [users groups tick]; (eapply cache_ok_later; [|eassumption]; lia).
+Qed.
+Theorem run_keeps_invariant cl R : forall ops s, Forall op_wf ops -> state_ok R s ->
+  state_ok R (fold_left (fun st o => fst (cstep2 cl R st o)) ops s).
+Proof.
+  induction ops as [|o ops IH]; intros s Hw H; cbn [fold_left]; auto. inversion Hw; subst. apply IH; auto. apply step_keeps_invariant; auto.
+Qed.
+Print Assumptions run_keeps_invariant.
